@@ -5,7 +5,7 @@
     context and reaches it by position.  Closures are related step-indexed: a named closure and a compiled one are related at
     fuel n when they compute the same stream for every smaller fuel. *)
 From Coq Require Import ZArith Bool List Lia FunctionalExtensionality Wf_nat.
-From JaqV Require Import Base.Bytes Base.Stream Val.Num Val.Val Val.Err Val.Arith Core.Syntax Core.Compile Core.Natives Core.Run
+From JaqV Require Import Base.Bytes Base.Stream Val.Num Val.Val Val.Err Val.Arith Val.Index Core.Syntax Core.Compile Core.Natives Core.Run
   Proofs.TailLaws Proofs.MonadLaws.
 From JaqV Require Proofs.CompileCorrect Proofs.GetpathLaws.
 Import ListNotations.
@@ -72,6 +72,25 @@ Section CF.
 
   Notation fold_go := CompileCorrect.fold_go.
 
+  (** destructuring with one level of variables: `[$a, $b]` and `{k: $a, ...}`; a key is a position or a filter *)
+  Inductive pkey := KI (i : Z) | KT (k : pterm).
+  Fixpoint arr_items (i : Z) (ps : list ppat) : option (list (pkey * bytes)) :=
+    match ps with
+    | [] => Some []
+    | PPVar x :: r => option_map (cons (KI i, x)) (arr_items (i + 1)%Z r)
+    | _ :: _ => None
+    end.
+  Fixpoint obj_items (kps : list (pterm * ppat)) : option (list (pkey * bytes)) :=
+    match kps with
+    | [] => Some []
+    | (k, PPVar x) :: r => option_map (cons (KT k, x)) (obj_items r)
+    | _ :: _ => None
+    end.
+  Definition flat_items (p : ppat) : option (list (pkey * bytes)) :=
+    match p with PPVar _ => None | PPArr ps => arr_items 0%Z ps | PPObj kps => obj_items kps end.
+  (** the variables bound to the values, last variable first *)
+  Definition pbindv (xs : list bytes) (ys : list val) : nenv := rev (combine (map CVar xs) (map NV ys)).
+
   (** sums of constructed pieces - the entries of an object, the parts of a string: nothing, one piece, or the first piece
       added to the sum of the others ([one] is the semantics of a piece, [rest] the sum one level of fuel below) *)
   Definition sum_body {X} (one : X -> str val) (rest : list X -> str val) (dflt : val) (xs : list X) : str val :=
@@ -131,6 +150,13 @@ Section CF.
             match op with
             | BPipe None => sbind (sem n l rho phi lab v) (fun y => sem n r rho phi lab y)
             | BPipe (Some (PPVar x)) => sbind (sem n l rho phi lab v) (fun y => sem n r ((CVar x, NV y) :: rho) phi lab v)
+            | BPipe (Some p) =>
+                match flat_items p with
+                | Some its =>
+                    sbind (sem n l rho phi lab v) (fun y =>
+                      sbind (sflat n its rho phi lab y) (fun ys => sem n r (pbindv (map snd its) ys ++ rho) phi lab v))
+                | None => SUnk
+                end
             | BComma => sapp (sem n l rho phi lab v) (fun _ => sem n r rho phi lab v)
             | BAlt => match sfilter as_bool (sem n l rho phi lab v) with SNil => sem n r rho phi lab v | s => s end
             | BMath o => sbind (cart l r) (fun xy => of_res_opt (math_run o (fst xy) (snd xy)))
@@ -162,6 +188,27 @@ Section CF.
         | PObj kvs => sum_body (ent_sem (fun t => sem n t rho phi lab v) n) (fun l => sobj n l rho phi lab v) (Obj []) kvs
         | PStr None parts => sum_body (part_sem (fun t => sem n t rho phi lab v) n) (fun l => sstr n l rho phi lab v) (TStr []) parts
         | _ => SUnk
+        end
+    end
+
+  (** the values a one-level pattern takes out of [y], all combinations, first component outermost; the keys are evaluated
+      on [y] in the environment of the binding *)
+  with sflat (n : nat) (its : list (pkey * bytes)) (rho : nenv) (phi : list fent) (lab : nat) (y : val) {struct n} : str (list val) :=
+    match n with
+    | O => SBot
+    | S m =>
+        match its with
+        | [] => sone []
+        | (key, _) :: rest =>
+            sbind (match key with
+                   | KI i => match m with O => SBot | S _ => sone (vint i) end
+                   | KT k => sem m k rho phi lab y
+                   end) (fun i =>
+              sbind (of_res (vindex y i)) (fun xv =>
+                match rest with
+                | [] => sone [xv]
+                | _ => smap (cons xv) (sflat m rest rho phi lab y)
+                end))
         end
     end
 
@@ -248,6 +295,11 @@ Section CF.
   | f_ite1 b fs n i th : frag b fs n i -> frag b fs n th -> frag b fs (S n) (PIte [(i, th)] None)
   | f_obj b fs n kvs : frag_kvs b fs n kvs -> frag b fs (S n) (PObj kvs)
   | f_str b fs n parts : frag_strs b fs n parts -> frag b fs (S n) (PStr None parts)
+  | f_bind_arr b fs n l xs r : frag b fs (S (S n)) l -> frag (map CVar (rev xs) ++ b) fs (S (S n)) r ->
+      frag b fs (S (S (S n))) (PBinOp l (BPipe (Some (PPArr (map PPVar xs)))) r)
+  | f_bind_obj b fs n l kxs r : frag b fs (S (S n)) l -> frag_args b fs (S n) (map fst kxs) ->
+      frag (map CVar (rev (map snd kxs)) ++ b) fs (S (S n)) r ->
+      frag b fs (S (S (S n))) (PBinOp l (BPipe (Some (PPObj (map (fun kx => (fst kx, PPVar (snd kx))) kxs)))) r)
   with frag_args : list cbind -> list (bytes * nat) -> nat -> list pterm -> Prop :=
   | fa_nil b fs n : frag_args b fs n []
   | fa_cons b fs n a r : frag b fs n a -> frag_args b fs n r -> frag_args b fs n (a :: r)
@@ -531,6 +583,49 @@ Section CF.
                bind_vars defs fuel (combine (map is_var_name ps) cargs) acc c v
                = smap (fun ys => mkctx (map is_var_name ps) cargs ys c acc) (svals fuel args ps rho phi (labels c) v).
 
+
+
+  (** ** one-level destructuring: what the compiler builds for the pattern *)
+  Fixpoint arr_its (i : Z) (xs : list bytes) : list (pkey * bytes) :=
+    match xs with [] => [] | x :: r => (KI i, x) :: arr_its (i + 1)%Z r end.
+  Fixpoint arr_cpats (i : Z) (xs : list bytes) : list (term * pattern) :=
+    match xs with [] => [] | x :: r => (KInt i, PatVar) :: arr_cpats (i + 1)%Z r end.
+
+  Lemma arr_items_vars xs : forall i, arr_items i (map PPVar xs) = Some (arr_its i xs).
+  Proof. induction xs as [|x r IH]; intros i; [reflexivity|]. cbn [map arr_items arr_its]. rewrite IH. reflexivity. Qed.
+  Lemma arr_its_snd xs : forall i, map snd (arr_its i xs) = xs.
+  Proof. induction xs as [|x r IH]; intros i; [reflexivity|]. cbn [arr_its map snd]. rewrite IH. reflexivity. Qed.
+  Lemma obj_items_vars kxs : obj_items (map (fun kx : pterm * bytes => (fst kx, PPVar (snd kx))) kxs) = Some (map (fun kx => (KT (fst kx), snd kx)) kxs).
+  Proof. induction kxs as [|[k x] r IH]; [reflexivity|]. cbn [map obj_items fst snd]. rewrite IH. reflexivity. Qed.
+
+  Lemma pat_vars_arr n xs : pat_vars_f (S (S n)) (PPArr (map PPVar xs)) = xs.
+  Proof. cbn [pat_vars_f]. induction xs as [|x r IH]; [reflexivity|]. cbn [map flat_map pat_vars_f app]. rewrite IH. reflexivity. Qed.
+  Lemma pat_vars_obj n (kxs : list (pterm * bytes)) :
+    pat_vars_f (S (S n)) (PPObj (map (fun kx => (fst kx, PPVar (snd kx))) kxs)) = map snd kxs.
+  Proof. cbn [pat_vars_f]. induction kxs as [|[k x] r IH]; [reflexivity|]. cbn [map flat_map pat_vars_f app fst snd]. rewrite IH. reflexivity. Qed.
+
+  Lemma c_pat_arr n e s xs : c_pattern g (S (S n)) e s (PPArr (map PPVar xs)) = (PatIdx (arr_cpats 0 xs), s).
+  Proof.
+    cbn [c_pattern].
+    match goal with |- (let '(ps0, s0) := ?F s 0%Z (map PPVar xs) in _) = _ =>
+      assert (E : forall l i s', F s' i (map PPVar l) = (arr_cpats i l, s')) end.
+    { induction l as [|x r IH]; intros i s'; [reflexivity|]. cbn [map arr_cpats]. rewrite IH. reflexivity. }
+    rewrite E. reflexivity.
+  Qed.
+
+  Lemma c_pat_obj n e s (kxs : list (pterm * bytes)) :
+    c_pattern g (S (S n)) e s (PPObj (map (fun kx => (fst kx, PPVar (snd kx))) kxs))
+    = let '(ks, s') := c_args (S n) e s (map fst kxs) in (PatIdx (map (fun k => (k, PatVar)) ks), s').
+  Proof.
+    cbn [c_pattern].
+    match goal with |- (let '(kps0, s0) := ?F s (map _ kxs) in _) = _ =>
+      assert (E : forall l s', F s' (map (fun kx : pterm * bytes => (fst kx, PPVar (snd kx))) l)
+                               = let '(ks, s'') := c_args (S n) e s' (map fst l) in (map (fun k => (k, PatVar)) ks, s'')) end.
+    { induction l as [|[k x] r IH]; intros s'; [reflexivity|]. cbn [map fst snd c_args].
+      fold (c_term g (S n) e s' k []). destruct (c_term g (S n) e s' k []) as [[k' tk] sk]. rewrite IH.
+      destruct (c_args (S n) e sk (map fst r)) as [ks s'']. reflexivity. }
+    rewrite E. destruct (c_args (S n) e s (map fst kxs)) as [ks s']. reflexivity.
+  Qed.
 
   (** ** objects and strings: the loops inside [c_term] and the sums they build *)
   Definition c_ent (m : nat) (e : env) (s : cst) (kv : pterm * option pterm) : term * cst :=
@@ -871,6 +966,92 @@ Section CF.
     unfold fparams. apply filter_In. split; [exact Hx|]. rewrite V. reflexivity.
   Qed.
 
+
+
+  (** ** one-level destructuring: binding the values *)
+  Definition push_vals (ys : list val) (acc : ctx) : ctx := fold_left (fun a y => cons_var y a) ys acc.
+  Lemma push_vals_vars ys : forall a, vars (push_vals ys a) = map BVar (rev ys) ++ vars a.
+  Proof. unfold push_vals. induction ys as [|y ys IH]; intros a; [reflexivity|]. cbn [fold_left rev]. rewrite IH. cbn [cons_var vars]. rewrite map_app, <- app_assoc. reflexivity. Qed.
+  Lemma push_vals_labels ys : forall a, labels (push_vals ys a) = labels a.
+  Proof. unfold push_vals. induction ys as [|y ys IH]; intros a; [reflexivity|]. cbn [fold_left]. rewrite IH. reflexivity. Qed.
+
+  Lemma with_vars_env xs : forall e, e_vars (Compile.with_vars xs e) = map CVar (rev xs) ++ e_vars e /\ e_funs (Compile.with_vars xs e) = e_funs e.
+  Proof.
+    unfold Compile.with_vars. induction xs as [|x xs IH]; intros e; [split; reflexivity|]. cbn [fold_left rev]. destruct (IH (push_var (CVar x) e)) as [H1 H2].
+    rewrite H1, H2. cbn [push_var e_vars e_funs]. rewrite map_app, <- app_assoc. split; reflexivity.
+  Qed.
+
+  Lemma agrees_push_vals defs fuel e c rho xs ys : length ys = length xs -> agrees defs fuel e c rho ->
+    agrees defs fuel (Compile.with_vars xs e) (push_vals ys c) (pbindv xs ys ++ rho).
+  Proof.
+    intros L (Hm & (bs & rest & Hv & HF) & Hk). destruct (with_vars_env xs e) as [EV _].
+    assert (P1 : map fst (pbindv xs ys) = map CVar (rev xs)).
+    { unfold pbindv. rewrite !map_rev. f_equal. apply map_fst_combine. rewrite !map_length. congruence. }
+    assert (P2 : map snd (pbindv xs ys) = map NV (rev ys)).
+    { unfold pbindv. rewrite !map_rev. f_equal. apply map_snd_combine. rewrite !map_length. congruence. }
+    split; [rewrite map_app, P1, Hm, EV; reflexivity|]. split.
+    - exists (map BVar (rev ys) ++ bs), rest. rewrite push_vals_vars, Hv, <- app_assoc. split; [reflexivity|].
+      rewrite map_app, P2. apply Forall2_app; [|exact HF]. clear. induction (rev ys) as [|y l IH]; constructor; [reflexivity|exact IH].
+    - apply Forall_app. split; [|exact Hk]. unfold pbindv. apply Forall_rev. clear. revert ys.
+      induction xs as [|x xs IH]; intros [|y ys]; cbn; constructor; [exact I|apply IH].
+  Qed.
+
+  Lemma funs_push_vars defs fuel fes rho phi (bs : nenv) : Forall (fun p => forall q, fst p <> CFun q) bs ->
+    funs_ok defs fuel fes rho phi -> funs_ok defs fuel fes (bs ++ rho) phi.
+  Proof. induction 1 as [|[x a] bs Hx _ IH]; intros H; [exact H|]. cbn [app]. apply funs_push; [exact Hx|apply IH; exact H]. Qed.
+
+  Lemma pbindv_notfun xs ys : Forall (fun p : cbind * nbind => forall q, fst p <> CFun q) (pbindv xs ys).
+  Proof.
+    unfold pbindv. apply Forall_rev. revert ys. induction xs as [|x xs IH]; intros [|y ys]; cbn; constructor; [discriminate|apply IH].
+  Qed.
+
+  Notation bind_pats := (bind_pats d nr).
+  Lemma run_bindp defs fuel l cps r c v :
+    run defs (S fuel) (KPipe l (Some (PatIdx cps)) r) c v
+    = sbind (run defs fuel l c v) (fun y => sbind (bind_pats defs fuel cps c c y) (fun c' => run defs fuel r c' v)).
+  Proof. reflexivity. Qed.
+  Lemma bp_nil defs m acc c0 y : bind_pats defs (S m) [] acc c0 y = sone acc.
+  Proof. reflexivity. Qed.
+  Lemma bp_cons defs m idx rest acc c0 y :
+    bind_pats defs (S m) ((idx, PatVar) :: rest) acc c0 y
+    = let one := sbind (run defs m idx c0 y) (fun i => sbind (of_res (vindex y i)) (fun x => sone (cons_var x acc))) in
+      match rest with [] => one | _ => sbind one (fun acc' => bind_pats defs m rest acc' c0 y) end.
+  Proof. reflexivity. Qed.
+
+  Definition keysem (rho : nenv) (phi : list fent) (lab : nat) (y : val) (m : nat) (key : pkey) : str val :=
+    match key with KI i => match m with O => SBot | S _ => sone (vint i) end | KT k => sem m k rho phi lab y end.
+
+  Lemma sflat_cons m key x rest rho phi lab y :
+    sflat (S m) ((key, x) :: rest) rho phi lab y
+    = sbind (keysem rho phi lab y m key) (fun i => sbind (of_res (vindex y i)) (fun xv =>
+        match rest with [] => sone [xv] | _ => smap (cons xv) (sflat m rest rho phi lab y) end)).
+  Proof. destruct key; reflexivity. Qed.
+
+  Lemma bind_flat defs c0 rho phi lab y F : forall its cps,
+    Forall2 (fun it cp => snd cp = PatVar /\ forall m, (m <= F)%nat -> run defs m (fst cp) c0 y = keysem rho phi lab y m (fst it)) its cps ->
+    forall fuel acc, (fuel <= S F)%nat ->
+      bind_pats defs fuel cps acc c0 y = smap (fun ys => push_vals ys acc) (sflat fuel its rho phi lab y).
+  Proof.
+    induction 1 as [|[key x] [idx pat] its cps [Hp Hk] HF IH]; intros fuel acc Hle; (destruct fuel as [|m]; [reflexivity|]).
+    - reflexivity.
+    - cbn [fst snd] in Hp, Hk. subst pat. rewrite bp_cons, sflat_cons. cbv zeta. rewrite (Hk m ltac:(lia)).
+      destruct HF as [|it2 cp2 its cps H2 HF].
+      + rewrite smap_bind. f_equal. apply functional_extensionality. intros i. rewrite smap_bind. f_equal;
+          try (apply functional_extensionality; intros xv; reflexivity).
+      + rewrite sbind_assoc. rewrite smap_bind. f_equal. apply functional_extensionality. intros i.
+        rewrite sbind_assoc. rewrite smap_bind. f_equal. apply functional_extensionality. intros xv.
+        rewrite sbind_sone_l. rewrite (IH m (cons_var xv acc) ltac:(lia)). rewrite smap_smap. reflexivity.
+  Qed.
+
+  Lemma sflat_length fuel : forall its rho phi lab y, sforall (fun ys => length ys = length its) (sflat fuel its rho phi lab y).
+  Proof.
+    induction fuel as [|m IH]; intros its rho phi lab y; [exact I|]. destruct its as [|[key x] rest]; [cbn; auto|]. rewrite sflat_cons.
+    eapply GetpathLaws.sforall_sbind with (P := fun _ => True).
+    - clear. generalize (keysem rho phi lab y m key). intros s. induction s as [|z k IHs|e| |]; cbn; auto.
+    - intros i _. eapply GetpathLaws.sforall_sbind with (P := fun _ => True).
+      + clear. generalize (of_res (vindex y i)). intros s. induction s as [|z k IHs|e| |]; cbn; auto.
+      + intros xv _. destruct rest as [|it2 rest]; [cbn; auto|]. apply sforall_smap. eapply GetpathLaws.sforall_impl; [|apply IH]. cbn. intros ys ->. reflexivity.
+  Qed.
 
   Lemma c_ent_key m e s k : (forall x, k <> PVar x) ->
     c_ent m e s (k, None) = let '((k', _), s') := c_term g m e s k [] in (KObjSingle k' (KPath KId [(Index k', false)]), s').
@@ -1220,6 +1401,67 @@ Section CF.
       rewrite (sum_correct (part_one rho phi (labels c) v) (fun f l => sstr f l rho phi (labels c) v) (TStr []) (KStr []) defs c v fuel
                  ltac:(reflexivity) ltac:(reflexivity) ltac:(intros f0; destruct f0; reflexivity) parts ts HF fuel (le_n _)).
       destruct fuel; reflexivity.
+    - (* . as [$a, $b, ...] | r *) intros b fs n l xs r Hl IHl Hr IHr. start. destruct m as [|m]; [lia|]. destruct m as [|m]; [lia|].
+      destruct (IHl (S (S m)) e s [] ltac:(lia) Hsc Hfs) as (k1 & tr1 & s1 & E1 & X1 & R1).
+      destruct (with_vars_env xs e) as [EV EF].
+      assert (Hsc2 : scoped (map CVar (rev xs) ++ b) (Compile.with_vars xs e)).
+      { intros x Hx. rewrite EV. apply in_app_or in Hx as [Hx|Hx]; [apply index_in_prefix; exact Hx|apply index_behind_prefix; apply Hsc; exact Hx]. }
+      assert (Hfs2 : fscoped fs (Compile.with_vars xs e)) by (intros f' ar' Hin; rewrite EF; apply Hfs; exact Hin).
+      destruct (IHr (S (S m)) (Compile.with_vars xs e) s1 tr ltac:(lia) Hsc2 Hfs2) as (k2 & tr2 & s2 & E2 & X2 & R2).
+      exists (KPipe k1 (Some (PatIdx (arr_cpats 0 xs))) k2), tr2, s2. split.
+      + rewrite c_bind, E1, pat_vars_arr, E2, c_pat_arr. reflexivity.
+      + split; [eapply extends_trans; eassumption|].
+        intros defs Hc fuel c rho phi v Hag0 Hfr. destruct fuel as [|fuel]; [reflexivity|].
+        pose proof (funs_pred _ _ _ _ _ Hfr) as Hfr'. pose proof (agrees_pred _ _ _ _ _ Hag0) as Hag.
+        rewrite run_bindp. cbn [sem strip push_defs fold_left]. unfold flat_items. rewrite arr_items_vars, arr_its_snd.
+        rewrite (R1 defs (covers_left _ _ _ _ X1 X2 Hc) fuel c rho phi v Hag Hfr'). f_equal.
+        apply functional_extensionality. intros y.
+        rewrite (bind_flat defs c rho phi (labels c) y fuel (arr_its 0 xs) (arr_cpats 0 xs)).
+        * rewrite sbind_smap. apply (sbind_ext_on (fun ys => length ys = length (arr_its 0 xs))); [apply sflat_length|].
+          intros ys Hys. rewrite <- (push_vals_labels ys c).
+          assert (Ly : length ys = length xs) by (rewrite Hys, <- (map_length snd), arr_its_snd; reflexivity).
+          apply (R2 defs (covers_right _ _ _ _ X1 X2 Hc) fuel (push_vals ys c) (pbindv xs ys ++ rho) phi v).
+          -- apply agrees_push_vals; assumption.
+          -- rewrite EF. apply funs_push_vars; [apply pbindv_notfun|exact Hfr'].
+        * clear. generalize 0%Z. induction xs as [|x xs IH]; intros i; cbn [arr_its arr_cpats]; constructor; [|apply IH].
+          cbn [fst snd]. split; [reflexivity|]. intros m0 _. destruct m0; reflexivity.
+        * lia.
+    - (* . as {k: $a, ...} | r *) intros b fs n l kxs r Hl IHl Hk IHk Hr IHr. start. destruct m as [|m]; [lia|]. destruct m as [|m]; [lia|].
+      destruct (IHl (S (S m)) e s [] ltac:(lia) Hsc Hfs) as (k1 & tr1 & s1 & E1 & X1 & R1).
+      set (xs := map snd kxs).
+      destruct (with_vars_env xs e) as [EV EF].
+      assert (Hsc2 : scoped (map CVar (rev xs) ++ b) (Compile.with_vars xs e)).
+      { intros x Hx. rewrite EV. apply in_app_or in Hx as [Hx|Hx]; [apply index_in_prefix; exact Hx|apply index_behind_prefix; apply Hsc; exact Hx]. }
+      assert (Hfs2 : fscoped fs (Compile.with_vars xs e)) by (intros f' ar' Hin; rewrite EF; apply Hfs; exact Hin).
+      destruct (IHr (S (S m)) (Compile.with_vars xs e) s1 tr ltac:(lia) Hsc2 Hfs2) as (k2 & tr2 & s2 & E2 & X2 & R2).
+      destruct (IHk (S m) e s2 ltac:(lia) Hsc Hfs) as (cks & s3 & E3 & X3 & L3 & R3).
+      assert (X12 : extends s s2) by (eapply extends_trans; eassumption).
+      exists (KPipe k1 (Some (PatIdx (map (fun k => (k, PatVar)) cks))) k2), tr2, s3. split.
+      + rewrite c_bind, E1, pat_vars_obj. fold xs. rewrite E2, c_pat_obj, E3. reflexivity.
+      + split; [eapply extends_trans; eassumption|].
+        intros defs Hc fuel c rho phi v Hag0 Hfr. destruct fuel as [|fuel]; [reflexivity|].
+        pose proof (funs_pred _ _ _ _ _ Hfr) as Hfr'. pose proof (agrees_pred _ _ _ _ _ Hag0) as Hag.
+        pose proof (covers_left _ _ _ _ X12 X3 Hc) as Hc12.
+        destruct (R3 defs (covers_right _ _ _ _ X12 X3 Hc)) as [RB _].
+        rewrite run_bindp. cbn [sem strip push_defs fold_left]. unfold flat_items. rewrite obj_items_vars.
+        assert (SN : map snd (map (fun kx : pterm * bytes => (KT (fst kx), snd kx)) kxs) = xs) by (unfold xs; rewrite map_map; reflexivity).
+        rewrite SN.
+        rewrite (R1 defs (covers_left _ _ _ _ X1 X2 Hc12) fuel c rho phi v Hag Hfr'). f_equal.
+        apply functional_extensionality. intros y.
+        rewrite (bind_flat defs c rho phi (labels c) y fuel (map (fun kx : pterm * bytes => (KT (fst kx), snd kx)) kxs) (map (fun k => (k, PatVar)) cks)).
+        * rewrite sbind_smap. apply (sbind_ext_on (fun ys => length ys = length (map (fun kx : pterm * bytes => (KT (fst kx), snd kx)) kxs))); [apply sflat_length|].
+          intros ys Hys. rewrite <- (push_vals_labels ys c).
+          assert (Ly : length ys = length xs) by (rewrite Hys; unfold xs; rewrite !map_length; reflexivity).
+          apply (R2 defs (covers_right _ _ _ _ X1 X2 Hc12) fuel (push_vals ys c) (pbindv xs ys ++ rho) phi v).
+          -- apply agrees_push_vals; assumption.
+          -- rewrite EF. apply funs_push_vars; [apply pbindv_notfun|exact Hfr'].
+        * (* the keys are evaluated on the matched value, in the context of the binding *)
+          clear - RB Hag Hfr'. revert cks RB. induction kxs as [|[k x] kxs IH]; intros cks RB; cbn [map] in *; inversion RB as [|? ck ? cks' Hk1 Hks]; subst; constructor.
+          -- cbn [fst snd]. split; [reflexivity|]. intros m0 Hm0. cbn [keysem]. apply (Hk1 m0 c rho phi y).
+             ++ eapply agrees_fuel; [|exact Hag]. exact Hm0.
+             ++ eapply funs_ok_fuel; [|exact Hfr']. exact Hm0.
+          -- apply IH. exact Hks.
+        * lia.
     - (* no arguments *) intros b fs n m e s Hm Hsc Hfs. exists [], s. split; [reflexivity|]. split; [apply extends_refl|]. split; [reflexivity|].
       intros defs Hc. split; [constructor|]. intros ps fuel c rho phi v acc L Hag Hfr. destruct ps; [|discriminate]. destruct fuel; reflexivity.
     - (* an argument *) intros b fs n a r Ha IHa Hr IHr m e s Hm Hsc Hfs.
@@ -1399,3 +1641,23 @@ Example sem_objects_ex d : (forall v, d v = of_ascii [49]%Z) ->
   = sone (Obj [(TStr (of_ascii [97]%Z), Null); (TStr (of_ascii [120]%Z), vint 1);
                (TStr (of_ascii [98; 49]%Z), Arr [Null]); (TStr (of_ascii [99]%Z), vint 2)]).
 Proof. intros Hd. vm_compute. rewrite ?Hd. reflexivity. Qed.
+
+(** ... and by destructuring with one level of variables, e.g.
+      [1, 2] as [$a, $b] | {"k": $b} as {"k": $c} | [$a, $c]       whose semantics is [1, 2] *)
+Definition patterns_ex : pterm :=
+  let va := of_ascii [36; 97]%Z in let vb := of_ascii [36; 98]%Z in let vc := of_ascii [36; 99]%Z in
+  let num c := PNum (of_ascii [c]%Z) in let k := PStr None [SPStr (of_ascii [107]%Z)] in
+  PBinOp (PArr (Some (PBinOp (num 49%Z) BComma (num 50%Z)))) (BPipe (Some (PPArr (map PPVar [va; vb]))))
+    (PBinOp (PObj [(k, Some (PVar vb))]) (BPipe (Some (PPObj (map (fun kx => (fst kx, PPVar (snd kx))) [(k, vc)]))))
+       (PArr (Some (PBinOp (PVar va) BComma (PVar vc))))).
+Example frag_patterns_ex : frag [] [] 14 patterns_ex.
+Proof.
+  unfold patterns_ex. cbv zeta. apply f_bind_arr.
+  - apply f_arr. apply f_comma; constructor.
+  - apply f_bind_obj.
+    + apply f_obj. apply fk_kv; [apply f_str; repeat constructor|apply f_var; cbn; auto|apply fk_nil].
+    + apply fa_cons; [apply f_str; repeat constructor|apply fa_nil].
+    + apply f_arr. apply f_comma; apply f_var; cbn; auto.
+Qed.
+Example sem_patterns_ex d : sem d 16 patterns_ex [] [] 0 Null = sone (Arr [vint 1; vint 2]).
+Proof. vm_compute. reflexivity. Qed.
